@@ -115,6 +115,14 @@ Inductive respell1 : str -> str -> Prop :=
     plain_text (sch ++ 58 :: [47; 47] ++ (U ++ (91 :: x ++ [93]) ++ pp) ++ R) ->
     plain_text (sch ++ 58 :: [47; 47] ++ (U ++ (91 :: x' ++ [93]) ++ pp) ++ R) ->
     respell1 (sch ++ 58 :: [47; 47] ++ (U ++ (91 :: x ++ [93]) ++ pp) ++ R) (sch ++ 58 :: [47; 47] ++ (U ++ (91 :: x' ++ [93]) ++ pp) ++ R)
+| rs_userinfo sch sc dport x x' H R :
+    scheme_text lower_o sch sc dport ->
+    memb 64 x = false -> memb 47 x = false -> memb 63 x = false -> memb 35 x = false ->
+    memb 64 x' = false -> memb 47 x' = false -> memb 63 x' = false -> memb 35 x' = false ->
+    memb 47 H = false -> memb 63 H = false -> memb 35 H = false ->
+    same_login unq_o x x' -> rest_ok R ->
+    plain_text (sch ++ 58 :: [47; 47] ++ (x ++ 64 :: H) ++ R) -> plain_text (sch ++ 58 :: [47; 47] ++ (x' ++ 64 :: H) ++ R) ->
+    respell1 (sch ++ 58 :: [47; 47] ++ (x ++ 64 :: H) ++ R) (sch ++ 58 :: [47; 47] ++ (x' ++ 64 :: H) ++ R)
 | rs_segments sch sc dport A (c : N) (a b : str) (mid : list str) T :
     scheme_text lower_o sch sc dport ->
     memb 47 A = false -> memb 63 A = false -> memb 35 A = false ->
@@ -184,6 +192,14 @@ Proof.
     match goal with |- match parse ?z with _ => _ end => destruct (parse z) as [i|k] eqn:E1 end;
       match goal with |- match parse ?z with _ => _ end => destruct (parse z) as [i'|k'] eqn:E2 end; try contradiction; [|exact T].
     rewrite (parse_ok_network _ _ _ _ _ H H6 E1), (parse_ok_network _ _ _ _ _ H H7 E2).
+    split; [reflexivity | intros _]. destruct T as [A [B [C [D [E [F _]]]]]]. repeat split; assumption.
+  - (* user-info *)
+    pose proof (parse_url_userinfo enc lower_o idna_o ipv6_o int_o unq_o sch sc dport x x' H R
+                  H0 H1 H2 H3 H4 H5 H6 H7 H8 H9 H10 H11 H12 H13 H14 H15) as T.
+    cbv zeta in T. unfold same_url in T. unfold same_norm.
+    match goal with |- match parse ?z with _ => _ end => destruct (parse z) as [i|k] eqn:E1 end;
+      match goal with |- match parse ?z with _ => _ end => destruct (parse z) as [i'|k'] eqn:E2 end; try contradiction; [|exact T].
+    rewrite (parse_ok_network _ _ _ _ _ H0 H14 E1), (parse_ok_network _ _ _ _ _ H0 H15 E2).
     split; [reflexivity | intros _]. destruct T as [A [B [C [D [E [F _]]]]]]. repeat split; assumption.
   - (* dropped segments *)
     pose proof (parse_url_insert_segments enc lower_o idna_o ipv6_o int_o unq_o sch sc dport A c a b mid T
